@@ -66,7 +66,16 @@ type CaseC16 struct {
 	BufSize     int     `json:"buf_size"`
 	Chunks      []int   `json:"chunks"` // empty = whatever the caller asks for
 	EOFWithData bool    `json:"eof_with_data"`
+	Minimal     bool    `json:"minimal_scanner"` // hand Sync a PeekScanner that has only the three interface methods
 }
+
+// c16Minimal is a PeekScanner with nothing but the interface's methods (no
+// Buffered, Discard, Read ...): Sync is specified against the interface.
+type c16Minimal struct{ r *bufio.Reader }
+
+func (m c16Minimal) ReadByte() (byte, error)    { return m.r.ReadByte() }
+func (m c16Minimal) UnreadByte() error          { return m.r.UnreadByte() }
+func (m c16Minimal) Peek(n int) ([]byte, error) { return m.r.Peek(n) }
 
 func genC16Byte(t *rapid.T) byte {
 	switch rapid.IntRange(0, 8).Draw(t, "bk") {
@@ -120,6 +129,7 @@ func genC16(t *rapid.T) CaseC16 {
 		c.Chunks = rapid.SliceOfN(rapid.IntRange(1, 9), 1, 5).Draw(t, "chunks")
 	}
 	c.EOFWithData = rapid.Bool().Draw(t, "eof-with-data")
+	c.Minimal = rapid.IntRange(0, 2).Draw(t, "minimal-scanner") == 0
 	switch lk := rapid.IntRange(0, 399).Draw(t, "long-kind"); {
 	case lk < 60:
 		// leading garbage that ends around a multiple of the reader's buffer size, more than a buffer of data behind
@@ -191,7 +201,14 @@ func checkC16(c CaseC16, x *hx.Ctx) *hx.Failure {
 
 	src := &fragReader{data: clone(s), chunks: c.Chunks, eofWithData: c.EOFWithData, failAfter: -1}
 	r := bufio.NewReaderSize(src, c.BufSize)
-	off, err := packet.Sync(r)
+	var off int64
+	var err error
+	if c.Minimal {
+		x.Label("minimal-peekscanner")
+		off, err = packet.Sync(c16Minimal{r})
+	} else {
+		off, err = packet.Sync(r)
+	}
 	if want < 0 {
 		if err != gots.ErrSyncByteNotFound {
 			return hx.Failf("sync-notfound", "no plausible header in the stream but Sync returned (%d, %v), want ErrSyncByteNotFound; stream %x (pad %d)", off, err, head(c.Stream, 64), c.PadLen)
@@ -218,7 +235,7 @@ func checkC16(c CaseC16, x *hx.Ctx) *hx.Failure {
 var propC16 = hx.Register(hx.Prop[CaseC16]{ID: "C16", Gen: genC16, Check: checkC16})
 
 func c16Rule() {
-	hx.Rec("C16").SetRule("cases: byte streams of 0..~230 bytes built as garbage over a skewed alphabet (one third 0x47, AFC-bearing and PID-range bytes) with constructed false sync bytes (0x47 + AFC 00 header, 0x47 + PID 4..15 header) ++ optional true header ++ tail, optionally cut anywhere (headers cut by EOF); read through bufio.NewReaderSize(16|17|64|4096) over a source that fragments (1 byte at a time / drawn chunk sizes / unfragmented) and may return data together with EOF. Oracle: reference scan for the least position satisfying the statement's predicate; offset, error and the bytes remaining in the reader are compared. Enumerated: every placement of a true header after k in 0..6 false sync bytes of both kinds with 0..3 filler bytes. Non-trivial: >= 1 false sync byte before the answer, or a header cut by end of stream.")
+	hx.Rec("C16").SetRule("cases: byte streams of 0..~230 bytes built as garbage over a skewed alphabet (one third 0x47, AFC-bearing and PID-range bytes) with constructed false sync bytes (0x47 + AFC 00 header, 0x47 + PID 4..15 header) ++ optional true header ++ tail, optionally cut anywhere (headers cut by EOF); read through bufio.NewReaderSize(16|17|64|4096) over a source that fragments (1 byte at a time / drawn chunk sizes / unfragmented) and may return data together with EOF; one case in three hands Sync a PeekScanner that has only ReadByte/UnreadByte/Peek. Oracle: reference scan for the least position satisfying the statement's predicate; offset, error and the bytes remaining in the reader are compared. Enumerated: every placement of a true header after k in 0..6 false sync bytes of both kinds with 0..3 filler bytes. Non-trivial: >= 1 false sync byte before the answer, or a header cut by end of stream.")
 }
 
 func TestC16(t *testing.T) {
@@ -255,9 +272,15 @@ func TestC16Exhaustive(t *testing.T) {
 					}
 					for _, bs := range []int{16, 4096} {
 						for _, ch := range [][]int{nil, {1}, {3, 5}} {
-							c := CaseC16{Stream: s, BufSize: bs, Chunks: ch, EOFWithData: filler%2 == 0}
-							if f := propC16.EvalFast(c, hx.HashBytes(s, []byte{byte(bs), byte(len(ch)), byte(filler)})); f != nil {
-								t.Fatalf("VIOLATION-CANDIDATE property=C16 key=%s: %s", f.Key, f.Msg)
+							for _, minimal := range []bool{false, true} {
+								c := CaseC16{Stream: s, BufSize: bs, Chunks: ch, EOFWithData: filler%2 == 0, Minimal: minimal}
+								mb := byte(0)
+								if minimal {
+									mb = 1
+								}
+								if f := propC16.EvalFast(c, hx.HashBytes(s, []byte{byte(bs), byte(len(ch)), byte(filler), mb})); f != nil {
+									t.Fatalf("VIOLATION-CANDIDATE property=C16 key=%s: %s", f.Key, f.Msg)
+								}
 							}
 						}
 					}
@@ -265,7 +288,7 @@ func TestC16Exhaustive(t *testing.T) {
 			}
 		}
 	}
-	hx.Rec("C16").Subspace("k in 0..6 false sync bytes (every mix of AFC-00 and reserved-PID kinds) x 0..3 filler bytes x {true header follows, nothing follows} x 2 buffer sizes x 3 fragmentations")
+	hx.Rec("C16").Subspace("k in 0..6 false sync bytes (every mix of AFC-00 and reserved-PID kinds) x 0..3 filler bytes x {true header follows, nothing follows} x 2 buffer sizes x 3 fragmentations x {*bufio.Reader, minimal PeekScanner}")
 }
 
 func FuzzC16(f *testing.F) {
